@@ -40,6 +40,11 @@ class Translate(Domain):
         )
         shifted_points = points[:, list(self.space.keys())].as_tensor - translate_values
         # points[:, list(self.space.keys())] = Points(shifted_points, self.space)
+        # parameters may also be carried by the points: hand all of them on
+        all_data = points.join(params)
+        other = [v for v in all_data.space if v not in self.space]
+        if other:
+            params = all_data[:, other]
         return self.domain._contains(Points(shifted_points, self.space), params)
 
     def sample_random_uniform(
